@@ -140,3 +140,48 @@ func H_popmessage_arbitrary(maxlen int) {
 		verifrt.Assert(verifrt.SameBytes(got, data[hdr:hdr+L]), "accepted-string-content")
 	}
 }
+
+// H_strings_sequence: ONE encoder writes cnt byte strings one after another (each of every length lo..hi, contents
+// symbolic) - the strings of one value share the encoder, and whatever the encoder keeps between two strings
+// (scratch buffers, counters) must not show on the wire: the output is the concatenation of the specified forms
+// (zero padding included), and one decoder reads the same strings back in order and ends exactly at the tail.
+func H_strings_sequence(cnt, lo, hi int) {
+	msgs := make([][]byte, cnt)
+	var want []byte
+	for i := range msgs {
+		msgs[i] = verifrt.Bytes(lo + verifrt.Len(hi-lo))
+		want = append(want, refString(msgs[i])...)
+	}
+	buf := bytes.NewBuffer(nil)
+	e := NewEncoder(buf)
+	pn := verifrt.Catch(func() {
+		for _, m := range msgs {
+			e.PutMessage(m)
+		}
+	})
+	verifrt.Assert(!pn, "sequence-putmessage-no-panic")
+	if pn {
+		return
+	}
+	verifrt.Assert(e.CheckErr() == nil, "sequence-putmessage-ok")
+	if e.CheckErr() != nil {
+		return
+	}
+	wire := buf.Bytes()
+	verifrt.Assert(len(wire) == len(want), "sequence-wire-length")
+	verifrt.Assert(verifrt.SameBytes(wire, want), "sequence-wire-form")
+	tail := []byte{0xaa, 0xbb, 0xcc, 0xdd}
+	d, _ := NewDecoder(bytes.NewReader(append(append([]byte{}, want...), tail...)))
+	for i := range msgs {
+		var got []byte
+		pn = verifrt.Catch(func() { got = d.PopMessage() })
+		verifrt.Assert(!pn, "sequence-popmessage-no-panic")
+		if pn {
+			return
+		}
+		verifrt.Assert(d.err == nil, "sequence-popmessage-ok")
+		verifrt.Assert(verifrt.SameBytes(got, msgs[i]), "sequence-popmessage-roundtrip")
+	}
+	rest, _ := d.GetRestOfMessage()
+	verifrt.Assert(verifrt.SameBytes(rest, tail), "sequence-consumes-exactly-its-bytes")
+}
